@@ -224,7 +224,7 @@ func ocspDecisiveRules(c *Check) {
 	checkC04(sub)
 	n := 0
 	for _, o := range sub.Obls {
-		if o.Rule == "O-C04.4" || (!o.OK && (o.Rule == "anchor" || o.Rule == "engine")) {
+		if o.Rule == "O-C04.4" || o.Rule == "O-C04.5" || (!o.OK && (o.Rule == "anchor" || o.Rule == "engine")) {
 			n++
 			ob := c.add("O-C11.5", strings.TrimPrefix(o.Key, o.Rule+"|"), o.Desc, o.OK, o.Where, o.Detail...)
 			ob.Undecided = o.Undecided
@@ -232,5 +232,5 @@ func ocspDecisiveRules(c *Check) {
 	}
 	c.Searches += sub.Searches
 	c.States += sub.States
-	c.floor("OCSP responder-loop rules (shared with C04)", 4, n)
+	c.floor("OCSP responder-loop rules (shared with C04)", 5, n)
 }
